@@ -7,7 +7,7 @@ git -C /repo diff --quiet || { echo "/repo not clean"; exit 3; }
 git -C /repo apply "$patch" || { echo "patch does not apply"; exit 3; }
 rc=0
 for p in "$@"; do
-  out=$(/venv/bin/python sa/check.py "$p" --tier ${TIER:-quick} 2>&1); code=$?
+  out=$(VERIF_NO_EVIDENCE=1 /venv/bin/python sa/check.py "$p" --tier ${TIER:-quick} 2>&1); code=$?
   echo "== $p exit=$code"; echo "$out" | grep -v "^KNOWN-FINDING" | grep -E "^(VIOLATION|ANALYSIS-ERROR)|\[R[0-9]" | cut -c1-260 | head -12
   [ $code -ne 0 ] && rc=1
 done
